@@ -10,6 +10,9 @@ call, the recorded result type matches the value read back; plus the value-type 
 import datetime
 import json
 import math
+import os
+import shutil
+import tempfile
 import sys
 
 import common
@@ -232,8 +235,118 @@ def value_matrix(chk, root):
     return fails
 
 
+MOD_SRC = """from twosigma.memento import memento_function
+import c02fns
+
+
+def helper(x):
+    return x * 2
+
+
+@memento_function(cluster="cv", version_salt="s1")
+def salted(x):
+    c02fns.REC.add(("salted", x))
+    return helper(x) + 1
+
+
+@memento_function(cluster="cv")
+def plain(x):
+    c02fns.REC.add(("plain", x))
+    return helper(x) + 2
+
+
+@memento_function(cluster="cv", version="7")
+def pinned(x):
+    c02fns.REC.add(("pinned", x))
+    return helper(x) + 3
+
+
+@memento_function(cluster="cv", auto_dependencies=False, dependencies=[plain])
+def declared(x):
+    c02fns.REC.add(("declared", x))
+    return plain(x) + 4
+"""
+LATE_SRC = """from twosigma.memento import memento_function
+
+
+@memento_function(cluster="cv")
+def late_%d(x):
+    return x
+"""
+_mod_n = [0]
+
+
+def modifier_scenario(chk, root):
+    """functions declared in the different ways (version salt, automatic version, explicit version, declared dependencies):
+    a call through a modifier clone (force_local / ignore_result / partial / with_context_args({})) is the same distinct call as
+    the plain call — also when another memento function is registered between the two (a module imported later). Returns failures."""
+    import linecache
+    import types
+    import twosigma.memento as m
+    from twosigma.memento import Environment, ConfigurationRepository, FunctionCluster
+    from twosigma.memento.storage_memory import MemoryStorageBackend
+    from twosigma.memento.storage_filesystem import FilesystemStorageBackend
+    import c02fns
+    orig = m.Environment.get()
+    fails = []
+
+    def load(src, modname):
+        fname = "<%s>" % modname
+        linecache.cache[fname] = (len(src), None, src.splitlines(True), fname)
+        mod = types.ModuleType(modname)
+        mod.__package__ = "c02modpkg"
+        sys.modules[modname] = mod
+        exec(compile(src, fname, "exec"), mod.__dict__)
+        return mod
+    try:
+        for backend in ("memory", "fs", "fs+cache"):
+            for late in (False, True):
+                d = tempfile.mkdtemp(prefix="c02m_", dir=root)
+                st = MemoryStorageBackend() if backend == "memory" else FilesystemStorageBackend(
+                    path=os.path.join(d, "s"), **({"memory_cache_mb": 1} if backend == "fs+cache" else {}))
+                m.Environment.set(Environment(name="cv", base_dir=d, repos=[ConfigurationRepository(name="r", clusters={"cv": FunctionCluster(name="cv", storage=st)})]))
+                _mod_n[0] += 1
+                mod = load(MOD_SRC, "c02mod_%d_%d" % (os.getpid(), _mod_n[0]))
+                x = 0
+                for fname in ("salted", "plain", "pinned", "declared"):
+                    f = getattr(mod, fname)
+                    for how, via in (("force_local", lambda g: g.force_local()), ("ignore_result", lambda g: g.ignore_result()),
+                                     ("partial", lambda g: g.partial()), ("with_context_args({})", lambda g: g.with_context_args({}))):
+                        for first in ("plain-call-first", "modifier-first"):
+                            x += 1
+                            c02fns.REC.calls.clear()
+                            try:
+                                a = f(x) if first == "plain-call-first" else via(f)(x)
+                                if late:
+                                    _mod_n[0] += 1
+                                    load(LATE_SRC % _mod_n[0], "c02late_%d_%d" % (os.getpid(), _mod_n[0]))     # one more registration
+                                b = via(f)(x) if first == "plain-call-first" else f(x)
+                            except Exception as e:
+                                fails.append(dict(clause="no-internal-error", fn=fname, modifier=how, order=first, backend=backend, late_registration=late, error=repr(e)[:200]))
+                                continue
+                            runs = [c for c in c02fns.REC.calls if c == (fname, x)]
+                            want = f.fn(x) if False else None
+                            chk.case(["modifier", backend, late, fname, how, first], nontrivial=True,
+                                     sample=dict(kind="modifier clone vs plain call", fn=fname, modifier=how, order=first, backend=backend, late_registration=late))
+                            chk.count("modifier-scenarios")
+                            vals = [v for v in (a, b) if v is not None]
+                            if len(runs) != 1:
+                                fails.append(dict(clause="body-runs-once-per-distinct-call", fn=fname, modifier=how, order=first, backend=backend,
+                                                  late_registration=late, executions=len(runs)))
+                            elif len(set(vals)) > 1 or (how != "ignore_result" and len(vals) != 2):
+                                fails.append(dict(clause="transparent-outcome", fn=fname, modifier=how, order=first, backend=backend, values=[a, b]))
+                shutil.rmtree(d, ignore_errors=True)
+    finally:
+        m.Environment.set(orig)
+    return fails
+
+
 def main(chk, replay=None):
     if replay is not None:
+        if replay.get("stream") == "modifiers":
+            f = [x for x in modifier_scenario(chk, None) if x["clause"] == replay["class"]["clause"] and x["fn"] == replay["class"]["fn"]]
+            print(json.dumps(dict(still_fails=bool(f), observed=f[:3]), default=str))
+            return 1 if f else 0
         if replay.get("stream") == "value-matrix":
             f = [x for x in value_matrix(chk, None) if x["clause"] == replay["class"]["clause"] and x.get("value") == replay["observed"].get("value")]
             print(json.dumps(dict(still_fails=bool(f), observed=f[:3]), default=str))
@@ -245,7 +358,7 @@ def main(chk, replay=None):
     chk.rule = ("generated call-DAG programs (2-6 functions; nested, repeated, batched, failing with rebuildable / opaque / "
                 "non-memoized exceptions, caught or propagating; context overrides, ignore_result, prevent_further_calls, "
                 "hidden dynamic calls, resources) x histories of call / immediate repeat / call_batch / forget+call / "
-                "memento x {memory, fs, fs+cache}; plus 44 result values of every supported type x 4 backends. "
+                "memento x {memory, fs, fs+cache}; plus 49 result values of every supported type x 4 backends; plus functions declared with a version salt / automatic / explicit version / declared dependencies called through modifier clones and plainly, in both orders, with and without a registration in between. "
                 "Distinct = distinct (program, backend, history); non-trivial = program has >= 1 nested call.")
     proof_ok = chk.build_and_audit()
     # translator part: finite decision tables regenerated from the running code, theorems over them re-checked
@@ -259,6 +372,9 @@ def main(chk, replay=None):
         chk.violation({"what": "value matrix: %s for %s on %s" % (f["clause"], f.get("value"), f.get("backend")),
                        "class": {"clause": f["clause"], "stream": "value-matrix", "value_kind": (f.get("value") or "").split("-")[0]},
                        "stream": "value-matrix", "observed": f})
+    for f in modifier_scenario(chk, chk.tmpdir())[:3]:
+        chk.violation({"what": "modifier clone vs plain call (%s via %s, %s): %s" % (f["fn"], f["modifier"], f["order"], f["clause"]),
+                       "class": {"clause": f["clause"], "stream": "modifiers", "fn": f["fn"]}, "stream": "modifiers", "observed": f})
     for pi in range(nprog):
         prog = progs.gen_program(rng)
         ops = gen_ops(rng, prog, rng.randint(3, 10 if quick else 20))
